@@ -534,7 +534,11 @@ func doSelectRepoSet(shards []*rankedShard, and *query.And) ([]*rankedShard, que
 			// We can only replace if all the repos want the same branches. We
 			// simplify and just check that we are requesting 1 branch. The common
 			// case is just asking for HEAD, so this should be effective.
-			if len(c.List) != 1 {
+			//
+			// An empty branch name can not be replaced: Simplify folds
+			// Branch{Pattern: ""} to TRUE, while BranchesRepos matches documents
+			// on a branch named "".
+			if len(c.List) != 1 || c.List[0].Branch == "" {
 				return filtered, and
 			}
 
